@@ -15,10 +15,14 @@ NAMES = ["alpha", "beta", "gamma", "delta", "omega", "kappa", "sigma", "theta", 
 
 
 class Gen:
-    def __init__(self, r, name="algo"):
+    def __init__(self, r, name="algo", tag=""):
         self.r = r
         self.name = name
+        self.tag = tag            # makes the identifiers of one schema of a multi-schema file distinct from the others'
         self.n = 0
+        self.interface = []       # interface clauses (USE/REFERENCE FROM ...) placed right after the SCHEMA line
+        self.foreign_ents = []    # names of entities made visible through USE FROM
+        self.foreign_types = []   # (name, underlying simple type) of USE'd defined types
         self.consts = []       # (name, type)
         self.enums = []        # (type name, [items])
         self.deftypes = []     # (name, underlying simple type)
@@ -29,7 +33,7 @@ class Gen:
 
     def fresh(self, stem):
         self.n += 1
-        return "%s_%s%d" % (self.r.choice(NAMES), stem, self.n)
+        return "%s_%s%d%s" % (self.r.choice(NAMES), stem, self.n, self.tag)
 
     # ------------------------------------------------------------------ types
     def type_text(self, t):
@@ -304,7 +308,9 @@ class Gen:
     # ------------------------------------------------------------ declarations
     def schema(self):
         r = self.r
-        L = ["SCHEMA %s;" % self.name, ""]
+        L = ["SCHEMA %s;" % self.name, ""] + list(self.interface) + ([""] if self.interface else [])
+        for n_, u_ in self.foreign_types:
+            self.deftypes.append((n_, u_))
         # constants (initialised from literals and from each other)
         cl = []
         for _ in range(r.randint(0, 4)):
@@ -337,6 +343,10 @@ class Gen:
         for k, e in enumerate(self.entities):
             if k and r.random() < 0.4:
                 e["supers"] = [self.entities[r.randrange(k)]["name"]]
+        local_entities = list(self.entities)
+        for fe in self.foreign_ents:
+            # visible as attribute types and select items; declared elsewhere
+            self.entities.append({"name": fe, "attrs": [], "supers": [], "foreign": True})
         if self.entities and r.random() < 0.7:
             n = self.fresh("s")
             mem = [e["name"] for e in r.sample(self.entities, min(len(self.entities), r.randint(1, 2)))] + [d[0] for d in self.deftypes[:r.randint(0, 2)]]
@@ -347,16 +357,16 @@ class Gen:
             self.funcs.append((self.fresh("f"), [r.choice(SIMPLE[:6]) for _ in range(r.randint(0, 3))], r.choice(SIMPLE[:6])))
         for _ in range(r.randint(0, 2)):
             self.procs.append((self.fresh("p"), [r.choice(["INTEGER", "REAL", "STRING"]) for _ in range(r.randint(0, 2))]))
-        for e in self.entities:
+        for e in local_entities:
             for _ in range(r.randint(0, 4)):
                 e["attrs"].append((self.fresh("a"), self.rand_attr_type()))
-        for e in self.entities:
+        for e in local_entities:
             inherited = []
             for s in e["supers"]:
                 inherited += [a for x in self.entities if x["name"] == s for a in x["attrs"]]
             scope = e["attrs"] + inherited
             sup = ""
-            subs = [x["name"] for x in self.entities if e["name"] in x["supers"]]
+            subs = [x["name"] for x in local_entities if e["name"] in x["supers"]]
             if subs and r.random() < 0.6:
                 sup = " %sSUPERTYPE OF (%s)" % (r.choice(["", "ABSTRACT "]), ("ONEOF (%s)" % ", ".join(subs)) if len(subs) > 1 else subs[0])
             L.append("ENTITY %s%s%s;" % (e["name"], sup, (" SUBTYPE OF (%s)" % ", ".join(e["supers"])) if e["supers"] else ""))
@@ -394,8 +404,8 @@ class Gen:
             L.append("PROCEDURE %s%s;" % (name, (" (" + "; ".join("%s%s : %s" % (r.choice(["", "VAR "]), n, t) for n, t in params) + ")") if params else ""))
             L += ["  " + s for s in self.stmts([(n, t) for n, t in params if not n.startswith("q")] or [], None)]
             L += ["END_PROCEDURE;", ""]
-        if self.entities and r.random() < 0.7:
-            ents = r.sample(self.entities, min(len(self.entities), r.randint(1, 2)))
+        if local_entities and r.random() < 0.7:
+            ents = r.sample(local_entities, min(len(local_entities), r.randint(1, 2)))
             L.append("RULE %s FOR (%s);" % (self.fresh("r"), ", ".join(e["name"] for e in ents)))
             locs = [(self.fresh("v"), "INTEGER")]
             L += ["  LOCAL", "    %s : INTEGER := 0;" % locs[0][0], "  END_LOCAL;"]
@@ -410,4 +420,64 @@ class Gen:
 
 
 def gen_algo_schema(r, name="algo"):
-    return Gen(r, name).schema()
+    """one file: 1..3 schemas; with several, they USE / REFERENCE items of each other (also mutually, also renamed)"""
+    k = r.choice([1, 1, 2, 3])
+    if k == 1:
+        return Gen(r, name).schema()
+    names = [name] + ["%s_x%d" % (name, j) for j in range(1, k)]
+    # what each schema will export is fixed before any text is written, so that schemas can refer to each other in both directions
+    exports = []
+    for j, nm in enumerate(names):
+        tag = "_s%d" % j
+        exports.append({"schema": nm, "tag": tag,
+                        "type": ("shared_t%s" % tag, r.choice(["REAL", "INTEGER", "STRING"])),
+                        "ent": "shared_ent%s" % tag, "const": "shared_c%s" % tag, "func": "shared_f%s" % tag})
+    texts = []
+    for j, nm in enumerate(names):
+        g = Gen(r, nm, exports[j]["tag"])
+        others = [x for i_, x in enumerate(exports) if i_ != j and (i_ < j or r.random() < 0.5)]
+        for o in others:
+            use, ref = [], []
+            if r.random() < 0.8:
+                use.append(o["ent"] if r.random() < 0.7 else "%s AS renamed_%s" % (o["ent"], o["ent"]))
+                g.foreign_ents.append(use[-1].split(" AS ")[-1])
+            if r.random() < 0.6:
+                use.append(o["type"][0])
+                g.foreign_types.append(o["type"])
+            if r.random() < 0.6:
+                ref.append(o["const"])
+                g.consts.append((o["const"], "INTEGER"))
+            if r.random() < 0.6:
+                ref.append(o["func"])
+                g.funcs.append((o["func"], ["INTEGER"], "INTEGER"))
+            if use:
+                g.interface.append("USE FROM %s (%s);" % (o["schema"], ", ".join(use)))
+            if ref:
+                g.interface.append("REFERENCE FROM %s (%s);" % (o["schema"], ", ".join(ref)))
+            if not use and not ref and r.random() < 0.5:
+                g.interface.append("%s FROM %s;" % (r.choice(["USE", "REFERENCE"]), o["schema"]))
+        t = g.schema()
+        # the exported declarations of this schema
+        me = exports[j]
+        sel_user = ""
+        if g.foreign_ents:
+            # a select over a foreign entity, used by the exported entity: the shape in which two schemas wait for each other
+            sel_user = "TYPE shared_sel%s = SELECT (%s);\nEND_TYPE;\n\n" % (me["tag"], ", ".join(g.foreign_ents[:2]))
+        decl = ("CONSTANT\n  %s : INTEGER := %d;\nEND_CONSTANT;\n\n" % (me["const"], r.randint(1, 99)) if "CONSTANT" not in t else "")
+        body = ("TYPE %s = %s;\nEND_TYPE;\n\n%sENTITY %s;\n  id%s : INTEGER;\n%sEND_ENTITY;\n\n"
+                "FUNCTION %s (n : INTEGER) : INTEGER;\n  RETURN (n + %d);\nEND_FUNCTION;\n\n" % (
+                    me["type"][0], me["type"][1], sel_user, me["ent"], me["tag"],
+                    ("  pick%s : OPTIONAL shared_sel%s;\n" % (me["tag"], me["tag"])) if sel_user else "", me["func"], j))
+        if "CONSTANT" in t:
+            t = t.replace("CONSTANT\n", "CONSTANT\n  %s : INTEGER := %d;\n" % (me["const"], r.randint(1, 99)), 1)
+        # constants must precede every other declaration: put the block right after the interface clauses
+        head_end = t.index("\n\n", t.index("SCHEMA %s;" % nm)) + 2
+        for cl in g.interface:
+            head_end = max(head_end, t.index(cl) + len(cl) + 1)
+        if "CONSTANT" in t:
+            cend = t.index("END_CONSTANT;") + len("END_CONSTANT;\n\n")
+            t = t[:cend] + body + t[cend:]
+        else:
+            t = t[:head_end] + ("\n" if not t[:head_end].endswith("\n\n") else "") + decl + body + t[head_end:]
+        texts.append(t)
+    return "\n".join(texts)
